@@ -31,17 +31,18 @@ namespace occa {
     }
 
     hash_t device::kernelHash(const occa::json &props) const {
-      return (
-        occa::hash(props["compiler"])
-        ^ props["compiler_flags"]
-        ^ props["compiler_env_script"]
-        ^ props["compiler_vendor"]
-        ^ props["compiler_language"]
-        ^ props["compiler_linker_flags"]
-        ^ props["compiler_shared_flags"]
-        ^ props["include_occa"]
-        ^ props["link_occa"]
-      );
+      // Hash every value together with the name of its property: the XOR of bare
+      // value hashes does not change when two properties swap their values, and
+      // equal values in two properties cancel each other out
+      hash_t hash;
+      for (const std::string key : {
+          "compiler", "compiler_flags", "compiler_env_script",
+          "compiler_vendor", "compiler_language", "compiler_linker_flags",
+          "compiler_shared_flags", "include_occa", "link_occa"
+        }) {
+        hash ^= occa::hash(key + "=" + props[key].dump());
+      }
+      return hash;
     }
 
     //---[ Stream ]---------------------
